@@ -110,7 +110,7 @@ func (g *gen) changes(cont map[string][]byte, n int) []change {
 		out = append(out, change{k, nil})
 	}
 	for len(out) < n {
-		switch g.r.Weighted([]int{5, 4, 1, 3, 3, 1, 1}) {
+		switch g.r.Weighted([]int{5, 4, 1, 3, 3, 1, 1, 1, 1}) {
 		case 0: // put (new key or overwrite)
 			k := g.pool[g.r.Intn(len(g.pool))]
 			if _, ok := cont[string(k)]; ok {
@@ -159,6 +159,57 @@ func (g *gen) changes(cont map[string][]byte, n int) []change {
 			g.o.Count("ch:mirror-del")
 			del(append([]byte{g.mirrorA}, s...))
 			del(append([]byte{g.mirrorB}, s...))
+		case 7: // TWIN SUB-TRIES: everything under one mirror prefix is copied under the other, so the
+			// same branch / extension nodes (same hashes) are referenced from two paths
+			src, dst := g.mirrorA, g.mirrorB
+			if g.r.Bool() {
+				src, dst = dst, src
+			}
+			var ks []string
+			for k := range cont {
+				if k[0] == src || k[0] == dst {
+					ks = append(ks, k)
+				}
+			}
+			sort.Strings(ks)
+			made := false
+			for _, k := range ks {
+				if k[0] == dst {
+					if _, ok := cont[string(append([]byte{src}, k[1:]...))]; !ok {
+						del([]byte(k))
+					}
+				}
+			}
+			for _, k := range ks {
+				if k[0] == src {
+					put(append([]byte{dst}, k[1:]...), cont[k])
+					made = true
+				}
+			}
+			if made {
+				g.o.Count("ch:twin-subtries-made")
+			}
+		case 8: // … and one of the two references is removed again (the whole sub-trie under one prefix)
+			pre := g.mirrorA
+			if g.r.Bool() {
+				pre = g.mirrorB
+			}
+			var ks []string
+			for k := range cont {
+				if k[0] == pre {
+					ks = append(ks, k)
+				}
+			}
+			sort.Strings(ks)
+			for _, k := range ks {
+				del([]byte(k))
+			}
+			if len(ks) > 0 {
+				g.o.Count("ch:twin-one-reference-removed")
+			}
+			if len(ks) == 0 {
+				put(g.pool[g.r.Intn(len(g.pool))], g.val()) // keep the loop going
+			}
 		}
 	}
 	return out
